@@ -62,6 +62,7 @@ def mutants(prog):
         ("tversky: label map without channel axis", L, "tversky_index", "as_one_hot_tensor(target.unsqueeze(1), num_classes, dtype=y_pred.dtype)", "as_one_hot_tensor(target, num_classes, dtype=y_pred.dtype)", "T16.target-forms"),
         ("norm: membership test matches 1", "deepali.losses.base", "NormalizedPairwiseImageLoss.__init__", "if norm is True:\n        norm = None\n    if norm is None:", "if norm in (None, True):", "T16.module-norm"),
         ("norm: True and False exchanged", "deepali.losses.base", "NormalizedPairwiseImageLoss.__init__", "if norm is True:", "if norm is False:", "T16.module-norm"),
+        ("ncc: means over the whole batch", L, "ncc_loss", "source_mean = source.mean(dim=1, keepdim=True)", "source_mean = source.mean()", "T16.invariance"),
     ]
     for name, mod, fn, old, new, expect in specs:
         ov = source_sub(prog, mod, fn, old, new)
